@@ -37,9 +37,15 @@ def public_entry_points(model: Model) -> list[Func]:
     """Public API: exported functions, every method of TT, public functions of the public submodules."""
     out = {}
     exp = exported_names(model)
+
+    def private(name):
+        # _helper / __mangled are internal; __dunder__ methods are the operator API
+        return name.startswith("_") and not (name.startswith("__") and name.endswith("__"))
     for q, f in model.functions.items():
         if q in exp:
             out[q] = f
+        elif f.cls is not None and private(f.name):
+            continue        # reached (and summarised) through the public methods that call it
         elif f.cls == "TT" and f.module.name == "torchtt._tt_base":
             out[q] = f
         elif f.module.name in ("torchtt.solvers", "torchtt.grad", "torchtt.manifold", "torchtt.interpolate",
